@@ -10,6 +10,7 @@ package secp256k1
 
 import (
 	"crypto"
+	_ "crypto/sha256" // registers SHA-256 so that crypto.SHA256.New() works in every importing program
 	"encoding/binary"
 	"errors"
 	"hash"
